@@ -13,7 +13,7 @@ CONSTANTS
   Sizes = {1, 3}
   Pads = {0, 1, 2, 3}
   Props = {113}
-  CtlFroms = {2, 3, 4, 6, 11, 22}
+  CtlFroms = {2, 3, 4, 11, 22}
   MemSizes = {1, 3, 0}
   LockBits = {1, 9, 12}
   CtlTypes = {1, 2}
